@@ -254,6 +254,8 @@ func (p *ProjectRunner) initProcessLogs() {
 }
 
 func (p *ProjectRunner) initProcessLog(name string) {
+	p.logsMutex.Lock()
+	defer p.logsMutex.Unlock()
 	p.processLogs[name] = pclog.NewLogBuffer(p.project.LogLength)
 }
 
@@ -657,7 +659,10 @@ func (p *ProjectRunner) GetHostName() (string, error) {
 }
 
 func (p *ProjectRunner) getProcessLog(name string) (*pclog.ProcessLogBuffer, error) {
-	if procLogs, ok := p.processLogs[name]; ok {
+	p.logsMutex.Lock()
+	procLogs, ok := p.processLogs[name]
+	p.logsMutex.Unlock()
+	if ok {
 		return procLogs, nil
 	}
 	log.Error().Msgf("process %s doesn't exist", name)
@@ -811,7 +816,9 @@ func (p *ProjectRunner) renameProcess(name string, newName string) {
 	}
 	logs := p.removeProcessLogs(name)
 	if logs != nil {
+		p.logsMutex.Lock()
 		p.processLogs[newName] = logs
+		p.logsMutex.Unlock()
 	}
 	state, err := p.GetProcessState(name)
 	if err == nil {
